@@ -221,6 +221,8 @@ class Interp:
         return ('F',)
       if isinstance(e.value, str):
         return ('FRESH',)
+      if e.value is None or isinstance(e.value, (int, float)):
+        return ('OPAQUE',)
       raise Unsupported('constant %r' % (e.value,))
     if isinstance(e, ast.Name):
       if e.id not in env:
